@@ -4,7 +4,7 @@ import grammars as G
 import panics
 import termimpls
 from core import Relang, CheckError, Finding
-from mirutil import patterns_by_owner, union_pattern, predicate_expr, blocks_with_agg
+from mirutil import patterns_by_owner, union_pattern, predicate_expr, blocks_with_agg, call_name_matches, provenance
 
 LEVEL = "other"
 EXPLANATION = (
@@ -147,6 +147,19 @@ def language_obligations(ck, facts):
     return held
 
 
+def reparse_of_validated_iri(site):
+    """`oxiri::Iri::parse(x).unwrap()` where x is the inner string of a sophia `Iri<_>` wrapper (`Iri::unwrap()`)"""
+    fn = site.fn
+    t = fn.blocks[site.bi]["t"]
+    o = fn.origin(t["args"][0])
+    if not (o[0] == "call" and call_name_matches(o[1], r"^oxiri::Iri::<T>::parse$")):
+        return False
+    for p in provenance(fn, o[1]["args"][0]):
+        if p[0] == "call" and call_name_matches(p[1], r"^sophia_iri::_wrapper::Iri::<T>::unwrap$|^sophia_iri::Iri::<T>::unwrap$"):
+            return True
+    return False
+
+
 def run(ck, facts, tier):
     facts.require_crates(["sophia_rio", "sophia_turtle", "sophia_xml", "sophia_jsonld", "sophia_api", "sophia_iri"])
     held = language_obligations(ck, facts)
@@ -199,6 +212,13 @@ def run(ck, facts, tier):
                 ck.ok("R8.2", s.key, "debug assertion discharged by %s" % ent[1])
         elif s.status == "auto":
             ck.ok("R8.2", s.key, "auto: " + s.reason)
+        elif s.kind == "unwrap" and reparse_of_validated_iri(s):
+            # same audited fact as the `...#unwrap:fnref:unwrap:arg-of:Option::map` table entries, spelled as a direct call
+            if held.get("L8.1:base-reparse(sophia<=RFC)", False):
+                ck.ok("R8.2", s.key, "oxiri re-parse of a sophia-validated Iri (Iri::unwrap() of the wrapper): sophia-valid => "
+                                     "RFC 3987 (L8.1:base-reparse) => oxiri accepts (A9)")
+            else:
+                ck.bad("R8.2", "R8.2@" + s.key + "#undischarged", "re-parse of a sophia-validated IRI relies on L8.1:base-reparse, which does not hold", s.loc)
         elif s.status == "r8.5":
             if r85_ok:
                 ck.ok("R8.2", s.key, s.reason, nontrivial=False)
